@@ -1264,6 +1264,12 @@ def _assemble(repo, spec, rows=None, canary=None, opts=None):
             # every verified function that has a loop is checked with `loop_isolation(false)`: what the code established before a loop (a local
             # computed once, the arm of a match the loop sits in) is then known inside it, as it is for a reader -- otherwise naming a sub-expression
             # in front of a loop would turn into a failed obligation (harmless patch agent3_09)
+            # every verified function gets a solver process of its own (`spinoff_prover`): its query then does not depend on what else the module
+            # contains, so an edit to a sibling function cannot tip it over the resource limit (observed: Graph::remove_edge diverged -- 25 minutes,
+            # 18 GB -- after a behaviour-preserving edit of Edge::diff in the same module, and verifies in 0.1 s when spun off)
+            if kind == 'verified' and not (e and 'spinoff_prover' in (e['attrs'] or '')) and os.environ.get('VERIF_SPINOFF', '1') == '1':
+                ed.insert(kwline, indent + '#[verifier::spinoff_prover]\n', prio=0)
+                stats['spinoff_prover'] = stats.get('spinoff_prover', 0) + 1
             if kind == 'verified' and not (e and 'loop_isolation' in (e['attrs'] or '')) and os.environ.get('VERIF_LOOP_ISOLATION', '0') != '1':
                 if find_loops(src, mask, it['body_start'] + 1, it['end'] - 1):
                     ed.insert(kwline, indent + '#[verifier::loop_isolation(false)]\n' + ('' if (e and 'allow_complex_invariants' in (e['attrs'] or '')) else indent + '#[verifier::allow_complex_invariants]\n'), prio=0)
